@@ -102,6 +102,10 @@ func (sh *shaper) expr(e ast.Expr) string {
 		return sh.expr(e.Fun) + "(" + strings.Join(args, ",") + ")"
 	case *ast.ArrayType:
 		return "[]" + sh.expr(e.Elt)
+	case *ast.MapType:
+		return "map[" + sh.expr(e.Key) + "]" + sh.expr(e.Value)
+	case *ast.StarExpr:
+		return "*" + sh.expr(e.X)
 	case *ast.FuncLit:
 		var ps []string
 		if e.Type.Params != nil {
@@ -132,6 +136,8 @@ func (sh *shaper) stmt(s ast.Stmt) string {
 		return "{" + sh.block(s) + "}"
 	case *ast.ForStmt:
 		return "for(" + strings.TrimSuffix(sh.stmt(s.Init), ";") + ";" + sh.expr(s.Cond) + ";" + strings.TrimSuffix(sh.stmt(s.Post), ";") + "){" + sh.block(s.Body) + "}"
+	case *ast.RangeStmt:
+		return "for(" + sh.expr(s.Key) + "," + sh.expr(s.Value) + s.Tok.String() + "range " + sh.expr(s.X) + "){" + sh.block(s.Body) + "}"
 	case *ast.IfStmt:
 		r := "if(" + sh.stmt(s.Init) + sh.expr(s.Cond) + "){" + sh.block(s.Body) + "}"
 		if s.Else != nil {
@@ -198,5 +204,109 @@ func emitParseShape(g *gen, dir string, quote byte, comments, seps string) {
 	}
 	if fd := g.funcDecl(dir, "TestScript.doCmdCmp"); fd != nil {
 		g.emitBytesLit("ts_cmp_shape", "testscript TestScript.doCmdCmp: structural fingerprint", sh.block(fd.Body))
+	}
+	emitScriptShapes(g, dir, sh)
+}
+
+// isCall reports whether e is a call of pkg.fn (pkg may be a receiver name such as ts).
+func isCall(e ast.Expr, pkg, fn string) bool {
+	ce, ok := e.(*ast.CallExpr)
+	if !ok {
+		return false
+	}
+	se, ok := ce.Fun.(*ast.SelectorExpr)
+	if !ok || se.Sel.Name != fn {
+		return false
+	}
+	id, ok := se.X.(*ast.Ident)
+	return ok && id.Name == pkg
+}
+
+// emitScriptShapes: the script level of the model (TsParse/TsScript.v).
+//
+//   - ts_runloop_shape: the line loop of (*TestScript).run, reduced to what script_lines /
+//     run_lines mirror: the loop header, the statements that cut the next line off the script (all
+//     statements in front of the phase-comment test), the phase-comment test itself (condition and
+//     the fact that it ends in continue), and the call that hands the line to runLine; the
+//     bookkeeping in between (log, timing, ContinueOnError, stop) belongs to group TsRun and is
+//     rendered as "...".  ts_line_sep and ts_phase_prefix are the two string literals involved.
+//   - ts_cmdenv_shape, ts_setenv_shape, ts_getenv_shape, ts_setenvall_shape: whole bodies of cmdEnv,
+//     Setenv, Getenv, setEnv (cmd_env / env_listing, setenv, getenv, setup_env).
+func emitScriptShapes(g *gen, dir string, sh *shaper) {
+	if fd := g.funcDecl(dir, "TestScript.run"); fd != nil {
+		var loop *ast.ForStmt
+		for _, s := range fd.Body.List {
+			f, ok := s.(*ast.ForStmt)
+			if !ok || f.Init != nil || f.Post != nil {
+				continue
+			}
+			if be, ok := f.Cond.(*ast.BinaryExpr); ok && be.Op == token.NEQ {
+				if id, ok := be.X.(*ast.Ident); ok && id.Name == "script" {
+					if s, ok := g.str(be.Y); ok && s == "" {
+						loop = f
+					}
+				}
+			}
+		}
+		if loop == nil {
+			g.fail("%s: (*TestScript).run no longer has the line loop `for script != \"\" { ... }` that script_lines / run_lines of TsParse/TsScript.v mirror: how the script text is cut into lines cannot be tied to the model", dir)
+		} else {
+			var sb strings.Builder
+			sb.WriteString("for(;" + sh.expr(loop.Cond) + ";){")
+			phase, seenPhase, handed := -1, false, false
+			for i, s := range loop.Body.List {
+				if is, ok := s.(*ast.IfStmt); ok && is.Init == nil && isCall(is.Cond, "strings", "HasPrefix") {
+					phase = i
+					break
+				}
+			}
+			if phase < 0 {
+				g.fail("%s: run: the phase-comment test `if strings.HasPrefix(line, ...)` was not found in the line loop", dir)
+				return
+			}
+			for i, s := range loop.Body.List {
+				switch {
+				case i < phase:
+					sb.WriteString(sh.stmt(s))
+				case i == phase:
+					is := s.(*ast.IfStmt)
+					last := ""
+					if n := len(is.Body.List); n > 0 {
+						last = sh.stmt(is.Body.List[n-1])
+					}
+					sb.WriteString("if(" + sh.expr(is.Cond) + "){..." + last + "}")
+					seenPhase = true
+					if s, ok := tsStringArg(g, is.Cond, "strings", "HasPrefix", 1); ok {
+						g.emitBytesLit("ts_phase_prefix", "testscript run: a line with this prefix is a phase comment and is not handed to runLine", s)
+					} else {
+						g.fail("%s: run: strings.HasPrefix(line, <literal>) has no literal prefix", dir)
+					}
+				default:
+					r := sh.stmt(s)
+					if strings.Contains(r, "ts.runLine(") {
+						sb.WriteString(r)
+						handed = true
+					} else if !strings.HasSuffix(sb.String(), "...") {
+						sb.WriteString("...")
+					}
+				}
+			}
+			sb.WriteString("}")
+			if !seenPhase || !handed {
+				g.fail("%s: run: the line loop no longer hands the line to ts.runLine", dir)
+			}
+			if s, ok := tsStringArg(g, loop.Body, "strings", "Index", 1); ok {
+				g.emitBytesLit("ts_line_sep", "testscript run: strings.Index(script, ...) — the line terminator", s)
+			} else {
+				g.fail("%s: run: strings.Index(script, <literal>) not found in the line loop", dir)
+			}
+			g.emitBytesLit("ts_runloop_shape", "testscript TestScript.run: structural fingerprint of the line loop (see gen_tsparse_shape.go)", sb.String())
+		}
+	}
+	for _, x := range [][2]string{{"TestScript.cmdEnv", "ts_cmdenv_shape"}, {"TestScript.Setenv", "ts_setenv_shape"},
+		{"TestScript.Getenv", "ts_getenv_shape"}, {"TestScript.setEnv", "ts_setenvall_shape"}} {
+		if fd := g.funcDecl(dir, x[0]); fd != nil {
+			g.emitBytesLit(x[1], "testscript "+x[0]+": structural fingerprint", sh.block(fd.Body))
+		}
 	}
 }
